@@ -76,26 +76,40 @@ def classify_write(arg):
     return ("other", arg)
 
 
+def merge_chr_writes(flat):
+    """merge runs of single-character writes (w_short writes its two bytes separately) into one concatenation: [(kind, effect, is_chr)]"""
+    from ..sve import Effect
+    merged = []
+    for k, e in flat:
+        is_chr = k == "call" and str(e.args[0]) == "WRITE" and isinstance(e.args[1][0], Op) and e.args[1][0].op == "call" and e.args[1][0].args[0] == "chr"
+        cont = False
+        if is_chr and merged and merged[-1][2] and repr(merged[-1][1].guards) == repr(e.guards):
+            # only bytes of the *same* value continue a group: chr(bits(t, 8k, 8)) after k bytes of t
+            prev_le = le_bytes_of(merged[-1][1].args[1][0])
+            b = e.args[1][0].args[1]
+            cont = prev_le is not None and not isinstance(prev_le[0], str) and isinstance(b, Op) and b.op == "bits" and b.args[2] == 8 and b.args[1] == 8 * prev_le[1] \
+                and repr(b.args[0]) == repr(prev_le[0])
+        if cont:
+            prev = merged[-1][1]
+            cat = Op("concat", prev.args[1][0], e.args[1][0])
+            ne = Effect("call", (prev.args[0], (cat,), prev.args[2]), prev.guards, prev.line, prev.fn)
+            merged[-1] = (k, ne, True)
+        else:
+            merged.append((k, e, is_chr))
+    return merged
+
+
 def writer_trace(T, M, meth, x, pyver=(3, 8)):
     sp = Spec(T.F, opaque_funcs={"xdis.marsh._Marshaller.dump"})
+    if isinstance(x, Sym) and x.kind == "str":
+        # a plain str (the property's domain) has no attribute `value`; the writer's branch for the unmarshaller's py2-unicode wrapper is not taken
+        sp.assume[repr(Op("hasattr", x, "value"))] = False
     me = Instance(M)
     me.attrs.update(_write=Sym("WRITE"), python_version=pyver)
     out = sp.run(M.lookup(meth), [me, x])
     trace = []
     depth = 0
-    flat = list(flatten_effects(sp.effects))
-    # merge runs of single-character writes (w_short writes its two bytes separately) into one concatenation
-    merged = []
-    for k, e in flat:
-        is_chr = k == "call" and str(e.args[0]) == "WRITE" and isinstance(e.args[1][0], Op) and e.args[1][0].op == "call" and e.args[1][0].args[0] == "chr"
-        if is_chr and merged and merged[-1][2] and repr(merged[-1][1].guards) == repr(e.guards):
-            prev = merged[-1][1]
-            cat = Op("concat", prev.args[1][0], e.args[1][0])
-            from ..sve import Effect
-            ne = Effect("call", (prev.args[0], (cat,), prev.args[2]), prev.guards, prev.line, prev.fn)
-            merged[-1] = (k, ne, True)
-        else:
-            merged.append((k, e, is_chr))
+    merged = merge_chr_writes(flatten_effects(sp.effects))
     for k, e, _ in merged:
         if k == "loop-begin":
             depth += 1
